@@ -630,7 +630,8 @@ func caseRef(rid string) Case {
 	if pan {
 		c.Tags = append(c.Tags, "panic")
 	}
-	c.Term = fmt.Sprintf("CRef %s %s %s %s %s %s", B(rid), B(string(q)), B(string(gr)), B(string(gs)), OptB(rb, rok), OptB(sb, sok))
+	c.Term = fmt.Sprintf("CRef %s %s %s %s %s %s (%s,%s)", B(rid), B(string(q)), B(string(gr)), B(string(gs)), OptB(rb, rok), OptB(sb, sok),
+		Bool(res.Ref(rid).IsValid()), Bool(res.SoftRef(rid).IsValid()))
 	c.Nontrivial = string(q) != `"`+rid+`"`
 	return c
 }
@@ -825,7 +826,7 @@ func goValue(j J, via string) interface{} {
 	case "marshaler":
 		return marshalerJ{j}
 	case "datavalue":
-		return res.DataValue[interface{}]{Data: toGo(j.O[0].V)}
+		return res.NewDataValue(toGo(j.O[0].V))
 	case "datavalue-marshaler":
 		return res.DataValue[marshalerJ]{Data: marshalerJ{j.O[0].V}}
 	}
@@ -907,6 +908,44 @@ func envelopeValues() []J {
 		jobj(mem("Data", jarr())), jobj(mem("DATA", jobj(mem("data", jnum("1"))))),
 	)
 	return out
+}
+
+// failMarshaler is a json.Marshaler that fails
+type failMarshaler struct{}
+
+func (failMarshaler) MarshalJSON() ([]byte, error) { return nil, errors.New("no encoding") }
+
+// caseDVErr: MarshalDataValue on values json.Marshal rejects
+func caseDVErr(k int) Case {
+	vs := []interface{}{func() {}, make(chan int), failMarshaler{}, map[string]interface{}{"a": func() {}}, []interface{}{failMarshaler{}}}
+	var b []byte
+	var err error
+	pan := safe(func() { b, err = resprot.MarshalDataValue(vs[k%len(vs)]) })
+	c := Case{Desc: desc{Kind: "dverr", Via: strconv.Itoa(k)}}
+	out := outcomeErr()
+	if pan {
+		out = outcomePanic()
+	} else if err == nil {
+		out = ok(B(string(b)))
+	}
+	c.Term = "CDVErr " + out
+	c.Nontrivial = true
+	return c
+}
+
+// caseValM: MarshalJSON of Values that were not produced by UnmarshalJSON
+func caseValM(k int) Case {
+	vs := []store.Value{{}, store.DeleteValue, {Type: store.ValueTypePrimitive}, {Type: store.ValueTypeReference, RID: "a.b"},
+		{RawMessage: json.RawMessage(`{"rid":"a.b"}`), Type: store.ValueTypeReference, RID: "a.b"},
+		{RawMessage: json.RawMessage(`{"rid":"a.b","soft":true}`), Type: store.ValueTypeSoftReference, RID: "a.b"},
+		{RawMessage: json.RawMessage(`{"data":[1]}`), Type: store.ValueTypeData, Inner: json.RawMessage(`[1]`)},
+		{RawMessage: json.RawMessage(`12`), Type: store.ValueTypePrimitive}, {Type: store.ValueTypeData, Inner: json.RawMessage(`[1]`)}}
+	v := vs[k%len(vs)]
+	b, _ := v.MarshalJSON()
+	c := Case{Desc: desc{Kind: "valm", Via: strconv.Itoa(k)}}
+	c.Term = fmt.Sprintf("CValM %s %s", valueTerm(v), B(string(b)))
+	c.Nontrivial = v.RawMessage == nil
+	return c
 }
 
 func caseDVU(text string) Case {
@@ -1230,6 +1269,10 @@ func (sv *svc) common(r commonReq) bool {
 		r.Error(predefErr[sc.Code])
 	case "panicpredef":
 		panic(predefErr[sc.Code])
+	case "errornilface":
+		r.Error(nil) // a nil error interface: its Error method cannot be called
+	case "errorbaddata":
+		r.Error(&res.Error{Code: "custom.code", Message: "m", Data: func() {}}) // cannot be encoded
 	case "errornil":
 		r.Error((*res.Error)(nil))
 	case "errorother":
@@ -1273,6 +1316,8 @@ func (sv *svc) callLike(r callLike) {
 		r.OK(toGo(*sc.Result))
 	case "oknil":
 		r.OK(nil)
+	case "okbad":
+		r.OK(func() {}) // cannot be encoded
 	case "resource":
 		r.Resource(sc.Rid)
 	case "methodnotfound":
@@ -1477,6 +1522,12 @@ func outcomeTerm(sc *script) string {
 		return "(HError (Some " + errTerm(sc.Code, predefDefault[sc.Code], nil) + "))"
 	case "panicpredef":
 		return "(HPanicError " + errTerm(sc.Code, predefDefault[sc.Code], nil) + ")"
+	case "errornilface":
+		return "(HErrorOther " + B("panic in Error method") + ")"
+	case "errorbaddata":
+		return "(HError None)" // the pre-encoded system.internalError payload
+	case "okbad":
+		return "(HErrorOther " + B("json: unsupported type: func()") + ")"
 	case "errornil":
 		return "(HError None)"
 	case "errorother":
@@ -1568,6 +1619,9 @@ func parseTerm(payload []byte) (string, [3]bool) {
 
 	var raw json.RawMessage
 	err := resp.ParseResult(&raw)
+	if resp.Error != nil && (err != error(resp.Error) || err.Error() != resp.Error.Message) {
+		reuseImpl = append(reuseImpl, ImplViolation{What: fmt.Sprintf("ParseResult on an error response returns %v, the response's error is %q", err, resp.Error.Message), Desc: mkDesc("respu", string(payload))})
+	}
 	resultT := outcomeErr()
 	if err == nil {
 		if raw == nil {
@@ -1584,8 +1638,15 @@ func parseTerm(payload []byte) (string, [3]bool) {
 	if erra == nil {
 		accT = ok(pair(Bool(g), B(call)))
 	}
-	return fmt.Sprintf("(MkG %s (%s,%s,%s) %s %s %s %s)", respT, Bool(has[0]), Bool(has[1]), Bool(has[2]),
-		resultT, jqOutcome(rm, qm, errm), jqOutcome(rc, qc, errc), accT), has
+	// typed targets: the error branches of json.Unmarshal inside ParseResult / ParseModel / ParseCollection
+	var ts string
+	var tm []json.RawMessage
+	var tc map[string]json.RawMessage
+	te1 := resp.ParseResult(&ts)
+	_, te2 := resp.ParseModel(&tm)
+	_, te3 := resp.ParseCollection(&tc)
+	return fmt.Sprintf("(MkG %s (%s,%s,%s) %s %s %s %s (%s,%s,%s))", respT, Bool(has[0]), Bool(has[1]), Bool(has[2]),
+		resultT, jqOutcome(rm, qm, errm), jqOutcome(rc, qc, errc), accT, Bool(te1 == nil), Bool(te2 == nil), Bool(te3 == nil)), has
 }
 
 func caseResp(sv *svc, sc *script) (Case, *ImplViolation) {
@@ -1893,6 +1954,12 @@ func main() {
 			add("replay", c)
 		case "dvu":
 			add("replay", caseDVU(d.input(0)))
+		case "dverr":
+			k, _ := strconv.Atoi(d.Via)
+			add("replay", caseDVErr(k))
+		case "valm":
+			k, _ := strconv.Atoi(d.Via)
+			add("replay", caseValM(k))
 		case "val":
 			add("replay", caseVal([3]string{d.input(0), d.input(1), d.input(2)}))
 		case "reuse":
@@ -2035,6 +2102,12 @@ func main() {
 				}
 			}
 		}
+		for k := 0; k < 5; k++ {
+			add("datavalue-unmarshalable", caseDVErr(k))
+		}
+		for k := 0; k < 9; k++ {
+			add("value-marshal", caseValM(k))
+		}
 		var streamTexts []string
 		// (e) store values: triples of texts
 		for i := scale(500, 10000); i > 0; i-- {
@@ -2112,7 +2185,7 @@ func main() {
 			for _, sc := range []*script{
 				{Req: "call", Kind: "ok", Result: &one}, {Req: "auth", Kind: "oknil"}, {Req: "call", Kind: "resource", Rid: "test.model.1"},
 				{Req: "call", Kind: "resource", Rid: "bad..rid"}, {Req: "call", Kind: "error", Code: "custom.code", Msg: "Custom", Data: &one},
-				{Req: "call", Kind: "errornil"}, {Req: "call", Kind: "errorother", Msg: "plain error"}, {Req: "call", Kind: "notfound"},
+				{Req: "call", Kind: "errornil"}, {Req: "call", Kind: "errornilface"}, {Req: "call", Kind: "errorother", Msg: "plain error"}, {Req: "call", Kind: "notfound"},
 				{Req: "auth", Kind: "methodnotfound"}, {Req: "call", Kind: "invalidparams"}, {Req: "call", Kind: "invalidparams", Msg: "bad p"},
 				{Req: "call", Kind: "invalidquery"}, {Req: "auth", Kind: "invalidquery", Msg: "bad q"}, {Req: "access", Kind: "access", Get: true, Call: "set"},
 				{Req: "access", Kind: "access", Get: true}, {Req: "access", Kind: "access", Call: "*"}, {Req: "access", Kind: "access"},
@@ -2130,7 +2203,8 @@ func main() {
 				}
 			}
 		}
-		for _, sc := range []*script{{Req: "new", Kind: "new", Rid: "test.model.2"}, {Req: "new", Kind: "new", Rid: "a b"}, {Req: "get", Kind: "model", Result: &one},
+		for _, sc := range []*script{{Req: "call", Kind: "okbad"}, {Req: "auth", Kind: "okbad"}, {Req: "call", Kind: "errorbaddata"}, {Req: "get", Kind: "errorbaddata"},
+			{Req: "new", Kind: "new", Rid: "test.model.2"}, {Req: "new", Kind: "new", Rid: "a b"}, {Req: "get", Kind: "model", Result: &one},
 			{Req: "get", Kind: "model", Result: &one, Query: "q=1"}, {Req: "get", Kind: "collection", Result: &J{K: 'a', A: []J{one}}},
 			{Req: "get", Kind: "collection", Result: &J{K: 'a'}, Query: "q=1"}, {Req: "get", Kind: "notfound"}, {Req: "get", Kind: "noreply"}} {
 			if c, iv := caseResp(sv, sc); iv != nil {
